@@ -13,6 +13,10 @@ import (
 type input struct {
 	q   query
 	tag string // vector tag of the spec, or "random", "decimal", ...
+	// via "NewFloat": the value is not parsed from q.lit but handed to constant.NewFloat(type, val); q.lit is
+	// then the literal that denotes the value (the required bits are LLVM's / the spec's reading of it)
+	via string
+	val float64
 	// fields of spec vectors
 	fromSpec bool
 	valid    bool
@@ -243,7 +247,7 @@ func decimalInputs(rng *rand.Rand, n int) []input {
 		}
 		add("double", mid.Text('e', 30))
 		// and next to a halfway point between normal doubles
-		w := math.Float64frombits(d &^ (0x7FF << 52) | uint64(1+rng.Intn(2045))<<52)
+		w := math.Float64frombits(d&^(0x7FF<<52) | uint64(1+rng.Intn(2045))<<52)
 		hw := new(big.Float).SetPrec(300).SetFloat64(w)
 		nx := new(big.Float).SetPrec(300).SetFloat64(math.Nextafter(w, math.Inf(1)))
 		hw.Add(hw, nx)
@@ -256,6 +260,43 @@ func decimalInputs(rng *rand.Rand, n int) []input {
 				hw.Sub(hw, e2)
 			}
 			add("double", hw.Text('e', 40))
+		}
+	}
+	return out
+}
+
+// valueOf is the value of a finite half, float or double bit pattern (hexadecimal digits of the kind's width).
+func valueOf(kind, bits string) float64 {
+	v := u64(bits)
+	switch kind {
+	case "half":
+		return math.Float64frombits(widen16(uint16(v)))
+	case "float":
+		return float64(math.Float32frombits(uint32(v)))
+	}
+	return math.Float64frombits(v)
+}
+
+// pow2Derived derives from the "pow2" vectors of the specification (dimension PowerOfTwoNeighbours of
+// FloatLit.tla: every power of two of half, float and double, its two neighbours and the negatives, in
+// the hexadecimal spelling) the other ways in which the same value reaches the printer: its exact decimal
+// expansion (scientific notation; positional as well when short) through the parser and
+// constant.NewFloatFromString, and the value itself through constant.NewFloat.  quick: NewFloat for
+// double only for the normal powers of two themselves.
+func pow2Derived(vectors []input, tier string) []input {
+	var out []input
+	for _, v := range vectors {
+		if v.tag != "pow2" || !v.valid {
+			continue
+		}
+		x := valueOf(v.q.kind, v.want)
+		plain, sci := exactDecimal(new(big.Float).SetPrec(64).SetFloat64(x))
+		out = append(out, input{q: query{v.q.kind, sci}, tag: "pow2-decimal"})
+		if len(plain) <= 24 {
+			out = append(out, input{q: query{v.q.kind, plain}, tag: "pow2-decimal"})
+		}
+		if tier == "thorough" || v.q.kind != "double" || u64(v.want)&(1<<52-1) == 0 {
+			out = append(out, input{q: v.q, tag: "pow2-newfloat", via: "NewFloat", val: x})
 		}
 	}
 	return out
